@@ -171,11 +171,13 @@ func checkC12(p *Program, r *Result) {
 		"overwrites an iterator table that another arm writes, so the order of summary groups cannot change the outcome; " +
 		"(C12.b) the streaming lexer and the index-based iterator accept the same set of chunk compressions; " +
 		"(C12.o) a chunk slot owns its decompressed bytes regardless of the chunk's compression (no aliasing of the shared read buffer for the uncompressed case); " +
+		"(C12.e) after a chunk load the yield loop re-evaluates the load condition before yielding, directly or through helpers (otherwise the result depends on how the writer partitioned messages into chunks); " +
 		"(C12.c) optional summary parts (statistics, attachment/metadata indexes, summary offsets) are not dereferenced on the message path."
 	r.NotDecided = []string{"equality of content across chunk partitions, schema/channel placement and CRC presence (run-time)"}
 	r.rule("C12.a", "summary handlers commute", 6)
 	r.rule("C12.b", "both chunk decoders accept the same compressions", 1)
 	r.rule("C12.o", "chunk slot buffers own their bytes", 2)
+	r.rule("C12.e", "how messages are partitioned into chunks does not affect ordered reads: load trigger re-evaluated after every chunk load", 1)
 	r.rule("C12.c", "optional summary parts are not required on the message path", 1)
 
 	g := newGoLayouts(p, pkgMcap)
@@ -256,6 +258,11 @@ func checkC12(p *Program, r *Result) {
 		}
 	}
 	checkSlotOwnership(p, r, "C12.o")
+	if ni := p.lookupFunc(pkgMcap, "indexedMessageIterator.NextInto"); ni != nil {
+		checkReloopAfterLoadAs(p, r, ni, "C12.e")
+	} else {
+		r.undecided("C12.e", "mcap.indexedMessageIterator.NextInto", "anchor", "", "not found")
+	}
 	// ---- c: optional parts on the message path
 	bad := 0
 	for _, name := range []string{"indexedMessageIterator.loadChunk", "indexedMessageIterator.NextInto"} {
